@@ -89,7 +89,7 @@ class sdr_assumed:
                 and union_upto(result, len(result)) == frozenset(score_dict.keys()))
 
 
-@contract(STV_PY, "STV._run_step", props=("C02", "C01", "C10"), unfold=3)
+@contract(STV_PY, "STV._run_step", props=("C02", "C01", "C10", "C09"), unfold=3)
 class stv_run_step:
     """One round of the count is one of three legal steps, chosen by the recorded tallies of the previous round:
     (A) some tally >= threshold: an election round (no one eliminated; who is elected and what is transferred is the elect
@@ -103,6 +103,7 @@ class stv_run_step:
     params = dict(self=Obj("STV", STV_FIELDS), profile=Profile, prev_state=StateRef, store_states=Bool)
     returns = Profile
     forall = dict(k=Seq(CSet))
+    pure_unless = "store_states"  # frame (C09): nothing of self is stored outside `if store_states:`
 
     def requires(self, profile, prev_state, store_states):
         return (self.score_function is first_place_votes and len(self.election_states) >= 1
